@@ -38,6 +38,9 @@ SEEDS = [
 ]
 TOKENS = ["{", "}", "(", ")", ":", "$", "@", "...", "!", "=", "[", "]", "a", "on", "query", "fragment", "1", "1.5",
           '"s"', "null"]
+FAULT_DOC = "{ a nn t { a b t { a } } l { a } x: b(x: 2) }"
+FAULT_PATHS = [("a",), ("nn",), ("t",), ("t", "a"), ("t", "b"), ("t", "t"), ("l",), ("l", 0, "a"), ("x",)]
+FAULT_KINDS = ["raise", "raise_te", "raise_te_ctor", "raise_shared", "return_exc", "none", "value"]
 COERCERS = ("default", "recording", "replacing", "suspending")
 
 
@@ -94,6 +97,7 @@ def shards(tier, seed):
         items.append(("tokens", i))
     items.append(("bytes",))
     items.append(("opvars",))
+    items.append(("fielderrors",))
     return items
 
 
@@ -136,6 +140,10 @@ def check_envelope(q, resp, coercer, n_coerced, returned):
                     return "error-extensions-empty"
                 if set(e) - {"message", "path", "locations", "extensions"}:
                     return "error-extra-key"
+            try:
+                json.dumps(resp)
+            except (TypeError, ValueError):
+                return "not-json-serialisable"
         if coercer != "default":
             if n_coerced != len(errs):
                 return "coercer-not-once-per-error"
@@ -168,9 +176,9 @@ def expectations(q, op_name):
     return "runs"
 
 
-def one(q, coercer, op_name, variables, out, tag):
+def one(q, coercer, op_name, variables, out, tag, faults=None):
     eng = engine(coercer)
-    scn = Scenario(root=ROOT)
+    scn = Scenario(root=ROOT, faults=dict(faults or {}), fault_values={p: object() for p, k in (faults or {}).items() if k == "value"})
     del REC.calls[:]
     del REC.returned[:]
     out["counts"]["evaluations"] += 1
@@ -198,7 +206,8 @@ def one(q, coercer, op_name, variables, out, tag):
             "signature": "%s|%s|%s" % (clause, tag, coercer),
             "summary": "%s for query=%r op=%r variables=%r coercer=%s: %r" % (clause, qq, op_name, variables, coercer, resp),
             "replay": {"query": q if isinstance(q, str) else None, "query_bytes_hex": q.hex() if isinstance(q, bytes) else None,
-                       "op": op_name, "variables": variables, "coercer": coercer, "tag": tag}})
+                       "op": op_name, "variables": variables, "coercer": coercer, "tag": tag,
+                       "faults": [[list(p), k] for p, k in (faults or {}).items()]}})
     return resp
 
 
@@ -271,6 +280,16 @@ def run_shard(item):
                 for variables in (None, {}, {"v": 3}, {"v": "x"}, {"zz": 1}, [1], "str", 0, [["v", 1]]):
                     for c in COERCERS:
                         one(q, c, opn, variables, out, tag)
+    elif kind == "fielderrors":
+        # every single and every pair of resolver failures (plain / library exceptions, exception as value, null, unserialisable)
+        # at the 8 field positions of one document, under the four error coercers
+        q = FAULT_DOC
+        inputs = [q]
+        for n in (1, 2):
+            for paths in itertools.combinations(FAULT_PATHS, n):
+                for kinds in itertools.product(FAULT_KINDS, repeat=n):
+                    for c in COERCERS:
+                        one(q, c, None, None, out, tag + "|" + "+".join(sorted(set(kinds))), faults=dict(zip(paths, kinds)))
     out["counts"]["inputs"] = len(inputs)
     for q in inputs[:: max(1, len(inputs) // 3)][:3]:
         out["samples"].append({"query": q if isinstance(q, str) else repr(q), "shard": kind})
@@ -299,5 +318,6 @@ def replay(rec):
     r = rec["replay"]
     q = r["query"] if r.get("query") is not None else bytes.fromhex(r["query_bytes_hex"])
     out = _new_out()
-    one(q, r["coercer"], r["op"], r["variables"], out, r.get("tag", "replay"))
+    one(q, r["coercer"], r["op"], r["variables"], out, r.get("tag", "replay"),
+        faults={tuple(p): k for p, k in r.get("faults") or []})
     return out["violations"]
